@@ -425,6 +425,12 @@ func (v *verifier) processSignature(ctx context.Context, sigBlob []byte, envelop
 		return err
 	}
 
+	// a critical extended attribute that nothing can process must never be
+	// accepted
+	if err := verifyCriticalAttributesProcessable(&outcome.EnvelopeContent.SignerInfo, verificationPluginName != ""); err != nil {
+		return err
+	}
+
 	var installedPlugin pluginframework.VerifyPlugin
 	if verificationPluginName != "" {
 		logger.Debugf("Finding verification plugin %q", verificationPluginName)
